@@ -99,6 +99,17 @@ def callall(e):
     return {"t": "callall", "e": e}
 
 
+OBJ = {"t": "obj"}
+
+
+def field(e, n):
+    return {"t": "field", "e": e, "n": n}
+
+
+def mcall(e, n, *args):
+    return {"t": "mcall", "e": e, "n": n, "args": list(args)}
+
+
 # ---- printer -------------------------------------------------------------------------------------
 PRIMS = {"m": "m", "vector": "vector", "identity": "identity", "not": "not", "inc": "inc", "dec": "dec",
          "add": "+", "lt": "<", "eq": "=", "conj": "conj",
@@ -164,6 +175,12 @@ def pr(e):
         return "(def %s %s)" % (e["n"], pr(e["e"]))
     if t == "callall":
         return "(mapv (fn [f__] (f__)) %s)" % pr(e["e"])
+    if t == "obj":
+        return "o"
+    if t == "field":
+        return "(.-p%d %s)" % (e["n"], pr(e["e"]))
+    if t == "mcall":
+        return "(.m%d %s%s)" % (e["n"], pr(e["e"]), "".join(" " + pr(x) for x in e["args"]))
     raise ValueError(t)
 
 
@@ -275,8 +292,10 @@ class Gen:
             return self.def_(d, scope)
         if w < 0.965:
             return self.letfn_(ty, d, scope)
-        if w < 0.985 and ty == "any":
+        if w < 0.98 and ty == "any":
             return self.capture_(d, scope)
+        if w < 0.992 and ty == "any":
+            return self.interop_(d, scope)
         if ty == "any":
             return vec(*[sub("any") for _ in range(r.randint(0, 3))])
         return self.leaf(ty, scope)
@@ -416,6 +435,36 @@ class Gen:
                                           callall(l(b))))),
                     c(I(0)), vec(), c(I(0)))
 
+    def target_(self, d, scope):
+        """an expression that evaluates to the harness object o, plain or compound"""
+        r = self.r
+        w = r.randrange(6)
+        if w <= 1 or d <= 0:
+            return OBJ
+        if w == 2:
+            return m(self.marker(), OBJ)
+        if w == 3:
+            return do(m(self.marker()), OBJ)
+        if w == 4:
+            t = self.name(scope)
+            return let([(t, OBJ)], l(t))
+        return if_(self.expr("any", d - 1, scope), OBJ, OBJ)
+
+    def interop_(self, d, scope):
+        """host interop: property reads and method calls whose target and arguments may be compound forms"""
+        r = self.r
+        sub = lambda: self.expr("any", max(0, d - 1), scope)  # noqa: E731
+        w = r.randrange(5)
+        if w == 0:
+            return if_(field(self.target_(d, scope), r.randint(0, 3)), sub(), sub())
+        if w == 1:
+            return prim("vector", sub(), field(self.target_(d, scope), r.randint(0, 3)), sub())
+        if w == 2:
+            return mcall(self.target_(d, scope), r.randint(0, 2), *[sub() for _ in range(r.randint(0, 3))])
+        if w == 3:
+            return prim("vector", m(self.marker()), mcall(self.target_(d, scope), r.randint(0, 2), sub(), sub()))
+        return let([("x", field(self.target_(d, scope), r.randint(0, 3)))], vec(l("x"), l("x")))
+
     def loop_(self, ty, d, scope):
         r = self.r
         i = self.name(scope)
@@ -471,6 +520,14 @@ def capture_programs(rnd, n):
     for _ in range(n):
         gobj = Gen(rnd)
         out.append(gobj.capture_(3, []))
+    return out
+
+
+def interop_programs(rnd, n):
+    out = []
+    for _ in range(n):
+        gobj = Gen(rnd)
+        out.append(gobj.interop_(3, []))
     return out
 
 
